@@ -63,7 +63,7 @@ def run(case, ctx, parse_text):
         ok = close(obs, exp, 1e-9)
     elif form in ('logical',):
         obs = (data.get('r'), data.get('q'))
-        ok = data.get('r') is True and data.get('q') is False
+        ok = data.get('r') is not None and data.get('q') is not None and bool(data.get('r')) is True and bool(data.get('q')) is False
         exp = (True, False)
     elif form == 'template':
         obs = data.get('r'); ok = obs == exp
@@ -74,3 +74,76 @@ def run(case, ctx, parse_text):
     elif not ok:
         devs.append(dev('modified-reference:expression-does-not-use-current-value', dict(text=text, observed=obs, expected=exp)))
     return outcome(classes=classes, nontrivial=True, fp='modref ' + text, dev=devs, monitors=mon, sample=dict(text=text, expected=exp, observed=obs))
+
+
+# ------------------------------------------------------------------------------------------------------------------
+# node-versus-node comparisons with an INTEGER node on either side and different units (closed form)
+
+def gen_nodecmp(rng):
+    dim = rng.choice(list(UNITS))
+    (ua, fa), (ub, fb) = rng.sample(UNITS[dim], 2)
+    x = rng.choice([1500, 2500, 3, 7, 45, 250, 90])
+    rel = rng.choice(['equal', 'left-greater', 'left-smaller'])
+    return dict(t='nodecmp', dim=dim, ua=ua, ub=ub, x=x, rel=rel, left=rng.choice(['int', 'int', 'float']), right=rng.choice(['float', 'int', 'float']),
+                op=rng.choice(['==', '!=', '<', '>', '<=', '>=']), via=rng.choice(['bool-node', 'case', 'solver-call', 'condition']))
+
+
+def run_nodecmp(c, ctx, parse_text):
+    F = dict(sum(UNITS.values(), []))
+    base = c['x'] * F[c['ua']]
+    y = base / F[c['ub']]
+    if c['rel'] == 'left-greater':
+        y = y * 0.75
+    elif c['rel'] == 'left-smaller':
+        y = y * 1.5
+    if c['right'] == 'int':
+        if float(y) != float(int(y)) or int(y) == 0:
+            return outcome(skip='right operand not integral for an int node')
+        ytxt = '%d' % int(y)
+    else:
+        ytxt = repr(float(y))
+    xtxt = '%d' % c['x'] if c['left'] == 'int' else repr(float(c['x']))
+    yb = float(ytxt) * F[c['ub']]
+    truth = {'==': base == yb, '!=': base != yb, '<': base < yb, '>': base > yb, '<=': base <= yb, '>=': base >= yb}[c['op']]
+    if base != yb and close(base, yb, 2e-3):
+        return outcome(skip='operands inside the tolerance band')
+    L = ['d %s = %s %s' % (c['left'], xtxt, c['ua']), 'b %s = %s %s' % (c['right'], ytxt, c['ub'])]
+    expr = '{?d} %s {?b}' % c['op']
+    via = c['via']
+    if via == 'bool-node':
+        L.append('r bool = ("%s")' % expr)
+    elif via == 'case':
+        L += ['@case ("%s")' % expr, '  z int = 1', '@else', '  z int = 2', '@end']
+    elif via == 'condition':
+        L = [L[1], L[0], '  !condition ("{?} %s {?b}")' % c['op']]
+    text = '\n'.join(L) + '\n'
+    classes = ['node-vs-node-comparison', 'node-vs-node:left-%s-right-%s' % (c['left'], c['right']), 'node-vs-node:' + via]
+    if c['left'] == 'int' and float(base / F[c['ub']]) != float(int(base / F[c['ub']])):
+        classes.append('node-vs-node:int-left-converts-to-non-integer')
+    devs, mon = [], dict(node_vs_node_programs=1)
+    kind, res = parse_text(ctx, text)
+    obs = None
+    if via == 'condition':
+        if truth and kind != 'ok':
+            devs.append(dev('node-vs-node:satisfied-condition-rejected', dict(text=text, exc=repr(res)[:160])))
+        if not truth and kind == 'ok':
+            devs.append(dev('node-vs-node:violated-condition-accepted', dict(text=text)))
+        obs = kind
+    elif kind != 'ok':
+        devs.append(dev('node-vs-node:valid-program-rejected', dict(text=text, exc=repr(res)[:160])))
+    else:
+        d = res.data()
+        if via == 'bool-node':
+            obs = d.get('r')
+        elif via == 'case':
+            obs = {1: True, 2: False}.get(d.get('z'))
+        else:
+            from scinumtools.dip.solvers import LogicalSolver
+            with LogicalSolver(res) as s:
+                r = s.solve(expr)
+            obs = bool(r.value) if hasattr(r, 'value') else bool(r)
+        if obs is None or bool(obs) != truth:
+            devs.append(dev('node-vs-node:comparison-value-differs', dict(text=text, expression=expr, observed=obs, expected=truth)))
+        if not close(d.get('d'), c['x'], 1e-12) or not close(d.get('b'), float(ytxt), 1e-12):
+            devs.append(dev('node-vs-node:comparison-changed-its-operands', dict(text=text, data={k: d.get(k) for k in 'db'})))
+    return outcome(classes=classes, nontrivial=True, fp='nodecmp ' + text, dev=devs, monitors=mon, sample=dict(text=text, expected=truth, observed=obs))
